@@ -114,16 +114,16 @@ def gen_case(rng: random.Random, tier: str) -> dict:
             c.update({"variant": rng.choice(PDF_LOOPS)})
         elif fam == "ole_nested":
             c.update({"stream": rng.choice(["PowerPoint Document", "PowerPoint Document", "Pictures"]), "rtype": rng.choice(OLE_CONTAINER_TYPES),
-                      "depth": rng.choice([300, 1400, 5600, 27000])})
+                      "depth": rng.choice([300, 1400, 5600, 27000]), "shape": rng.choice(["nested", "nested", "overrun"])})
         elif fam == "lying_7z":
             c.update({"mb": rng.choice([300, 500]) if tier != "quick" else 300, "method": rng.choice(["lzma", "lzma2"]), "declared": rng.choice([10, 1000])})
         else:
             c.update({"n": rng.choice([100, 5000, 30000])})
         return c
     if r < 0.70:
-        fam = rng.choice(["mbox_from", "mbox_from", "deep_html", "deep_rtf", "deep_json", "deep_odt", "deep_docx", "soup_html", "deep_ppt", "deep_ppt_pictures", "epub_nav_soup", "html_rows", "docx_paragraphs", "rtf_paragraphs",
+        fam = rng.choice(["mbox_from", "mbox_from", "deep_html", "deep_rtf", "deep_json", "deep_odt", "deep_docx", "soup_html", "deep_ppt", "deep_ppt_pictures", "deep_ppt_overrun", "epub_nav_soup", "html_rows", "docx_paragraphs", "rtf_paragraphs",
                           "odt_paragraphs", "csv_rows", "zip_members"])
-        base = {"mbox_from": [20000, 30000], "deep_html": [100, 200], "deep_rtf": [150, 400], "deep_json": [200, 230], "deep_odt": [100, 200], "deep_docx": [60, 100], "soup_html": [2000, 4000], "deep_ppt": [700, 1400], "deep_ppt_pictures": [600, 1200], "epub_nav_soup": [1500, 3000],
+        base = {"mbox_from": [20000, 30000], "deep_html": [100, 200], "deep_rtf": [150, 400], "deep_json": [200, 230], "deep_odt": [100, 200], "deep_docx": [60, 100], "soup_html": [2000, 4000], "deep_ppt": [700, 1400], "deep_ppt_pictures": [600, 1200], "deep_ppt_overrun": [400, 800], "epub_nav_soup": [1500, 3000],
                 "html_rows": [3000, 6000], "docx_paragraphs": [3000, 6000], "rtf_paragraphs": [3000, 6000], "odt_paragraphs": [3000, 6000], "csv_rows": [20000, 50000],
                 "zip_members": [400, 800]}[fam]
         return {"mode": "scaling", "family": fam, "n": rng.choice(base), "factor": 4}
@@ -272,7 +272,7 @@ def build_amp(c) -> tuple[bytes, str, int]:
         d = build_pdf_loop(c["variant"])
         return d, "amp.pdf", len(d)
     if fam == "ole_nested":
-        d = build_ole_nested(c["stream"], c["rtype"], c["depth"])
+        d = build_ole_nested(c["stream"], c["rtype"], c["depth"], c.get("shape", "nested"))
         return d, "amp.ppt", len(d)
     if fam == "lying_7z":
         # a folder whose stream expands far beyond the unpack size its header declares
@@ -341,7 +341,7 @@ OLE_CONTAINER_TYPES = [0x0FF0, 0x03E8, 0x03EE, 0x03F0, 0x0FF5, 0xF002, 0xF003, 0
                        0xF01A, 0xF01B, 0xF01F, 0xF01E]  # picture (BLIP) record types flagged as containers
 
 
-def build_ole_nested(stream: str, rtype: int, depth: int) -> bytes:
+def build_ole_nested(stream: str, rtype: int, depth: int, shape: str = "nested") -> bytes:
     """a PPT (valid OLE2 shell of a fixture) whose record stream is rewritten in place as `depth` containers nested in each other
     (8 bytes each, every one spanning the rest); the stream keeps its length, the remainder is zero-filled"""
     import struct
@@ -353,7 +353,10 @@ def build_ole_nested(stream: str, rtype: int, depth: int) -> bytes:
     depth = max(1, min(depth, n // 8))
     b = bytearray(n)
     for i in range(depth):
-        struct.pack_into("<HHI", b, 8 * i, 0x000F, rtype if (i or rtype != 0x0FF0) else 0x03E8, 8 * (depth - i - 1))
+        # "nested": every container spans exactly the rest of its parent; "overrun": every container claims a fixed length, so each one
+        # ends a little after its parent does (record lengths are only checked against the stream, not against the enclosing record)
+        ln = 8 * (depth - i - 1) if shape == "nested" else min(n - 8 * i - 8, 4096)
+        struct.pack_into("<HHI", b, 8 * i, 0x000F, rtype if (i or rtype != 0x0FF0) else 0x03E8, ln)
     ole.write_stream(stream, bytes(b))
     ole.close()
     return bio.getvalue()
@@ -366,6 +369,8 @@ def build_scaling(fam: str, n: int) -> tuple[bytes, str]:
     if fam == "mbox_from":
         one = b"From a@example.org Tue Jan  2 03:04:05 2024\n"
         return one * n + b"From: a@example.org\nSubject: s\nDate: Tue, 02 Jan 2024 03:04:05 +0000\n\nbody\n", "s.mbox"
+    if fam == "deep_ppt_overrun":
+        return build_ole_nested("PowerPoint Document", 0x0FF0, n, "overrun"), "s.ppt"
     if fam == "deep_ppt_pictures":
         return build_ole_nested("Pictures", 0xF01A, n), "s.ppt"
     if fam == "epub_nav_soup":
@@ -531,7 +536,7 @@ def _family_sig(case) -> str:
         if f == "pdf_loop":
             return f"pdf_loop|{case['variant']}"
         if f == "ole_nested":
-            return f"ole_nested|{case['stream'].split()[0]}|{case['rtype']:#06x}|{'deep' if case['depth'] > 1400 else 'shallow'}"
+            return f"ole_nested|{case['stream'].split()[0]}|{case['rtype']:#06x}|{'deep' if case['depth'] > 1400 else 'shallow'}" + ("|overrun" if case.get("shape") == "overrun" else "")
         if f == "ratio_member":
             return f"ratio_member|{case['fmt']}|{case['ext']}"
         return f
